@@ -176,8 +176,8 @@ Theorem C03_generic_greedy : forall (T : Type) (K : kops T) (p : profile) (meth 
   (forall a b c, k_ltb K a b = false -> k_ltb K b c = false -> k_ltb K a c = false) ->
   (forall a, k_eqb K a a = true) ->
   (forall va vb md sa sb sx,
-     k_ltb K va (k_max K) = true -> k_ltb K vb (k_max K) = true -> k_ltb K md (k_max K) = true ->
-     k_ltb K (k_upd K va vb md sa sb sx) (k_max K) = true) ->
+     k_ltb K va (k_inf K) = true -> k_ltb K vb (k_inf K) = true -> k_ltb K md (k_inf K) = true ->
+     k_ltb K (k_upd K va vb md sa sb sx) (k_inf K) = true) ->
   (below_kind_of meth = BelowRename ->
      forall va vb md sa sb sx, (uses_sizes_ab meth = true -> 0 < sa /\ 0 < sb) ->
      k_ltb K va md = false -> k_ltb K vb md = false ->
@@ -192,7 +192,7 @@ Theorem C03_generic_greedy : forall (T : Type) (K : kops T) (p : profile) (meth 
   (uses_sizes_ab meth = false ->
      forall va vb md sa sb sa' sb' sx, k_upd K va vb md sa sb sx = k_upd K va vb md sa' sb' sx) ->
   forall s d m n s' d' m' M0,
-  Forall (fun v => k_ltb K v (k_max K) = true) (square_all K m) ->
+  Forall (fun v => k_ltb K v (k_inf K) = true) (square_all K m) ->
   generic_with K p meth s d m n = Ok (s', d', m') ->
   prologue p (square_all K m) n = Ok M0 ->
   (forall x y v, x <> y -> x < m_obs M0 -> y < m_obs M0 -> wcell M0 x y = Some v -> crit (Leaf x) (Leaf y) v) ->
@@ -213,7 +213,7 @@ Theorem C03_generic_selection_greedy : forall (T : Type) (F : fops T) (p : profi
   (forall u v, f_eqb F u v = true -> f_ltb F v u = false) ->
   forall meth s d (m : list T) (n : N) s' d' m' M0,
   meth = Single \/ meth = Complete ->
-  Forall (fun v => f_ltb F v (f_max F) = true) m ->
+  Forall (fun v => f_ltb F v (f_inf F) = true) m ->
   generic_with (kops_of F meth) p meth s d m n = Ok (s', d', m') ->
   prologue p m n = Ok M0 ->
   exists raw,
